@@ -152,6 +152,8 @@ func c04aEnd(t *testing.T, acceptTimeout time.Duration, g *c04aGater) *end {
 	return e
 }
 
+var c04aStuck int
+
 const (
 	c04aStall     = 0 // the remote never starts the handshake
 	c04aHandshake = 1 // the remote completes the upgrade
@@ -197,6 +199,12 @@ func c04aAcceptCase(t *testing.T, out *verifh.Out, r *verifh.Rand, forced int) {
 	var cliRaw []net.Conn
 	upgradedCh := make(chan struct{}, nconn)
 	dial := func(mode int) {
+		if mode == c04aStall && c04aStuck >= 2 {
+			// listener.Close did not return twice with a silent remote: the failing cases are
+			// written; each further one would cost the bound
+			mode = c04aHandshake
+			out.Cover("accept.silent_remote_skipped_after_two_stuck_closes")
+		}
 		var d net.Dialer
 		ctx, cancel := context.WithTimeout(context.Background(), 10*time.Second)
 		defer cancel()
@@ -415,8 +423,9 @@ func c04aAcceptCase(t *testing.T, out *verifh.Out, r *verifh.Rand, forced int) {
 	select {
 	case <-closeDone:
 		closeReturned = true
-	case <-time.After(60 * time.Second):
+	case <-time.After(c04StuckBound):
 		out.Cover("accept.CLOSE_DID_NOT_RETURN")
+		c04aStuck++
 	}
 	if accDone != nil {
 		select {
